@@ -160,7 +160,7 @@ def starved_of_stack(fn, headroom):
         f = f.f_back
     old = sys.getrecursionlimit()
     try:
-        sys.setrecursionlimit(depth + max(8, headroom))
+        sys.setrecursionlimit(depth + max(3, headroom))
         return fn()
     except RecursionError:
         return None
@@ -202,7 +202,7 @@ def disturb(P, mode, rule, s, i, kind):
         with_budget(1.0, lambda: abort_at_call(P, lambda: py_outcomes(P, mode, rule, s, i), n,
                                                ForeignAbort if k == "abort-base" else ForeignError), None)
     elif k == "recursion":
-        with_budget(1.0, lambda: starved_of_stack(lambda: py_outcomes(P, mode, rule, s, i), 12 + 3 * n), None)
+        with_budget(1.0, lambda: starved_of_stack(lambda: py_outcomes(P, mode, rule, s, i), 4 + n % 17), None)
     return held
 
 
